@@ -21,7 +21,8 @@ CLAIMED['C15'] = dict(
          'parents first, left to right); external_references = free variables under the constructor invariant (the set.remove KeyError site is '
          'unreachable); contains_reference / contains_self_reference / contains_definition characterised over the pre-order listing; event-level '
          'external references exclude the own alias; aliases() in source order; the own-field check characterised. The per-class query overrides '
-         'are modelled as written and tied to the code by small-scope enumeration (every node kind x child slot x filler, depth 2) plus random trees.',
+         'are modelled as written and tied to the code by small-scope enumeration (every node kind x child slot x filler, depth 2) plus random trees.'
+         ' iterate() on properties, scopes, patterns, events and predicates (Props/C15b Node.iterate_eq_preorder), judged on every generated property by an independent walk (identity per position) and compared with the model.',
     design_ref='DESIGN.md §6 C15',
     note='Trusted: Lean kernel and the three standard axioms; dumper and S-expression codec; correspondence sampling. iterate() on non-expression '
          'nodes (property/scope/pattern/event) is checked by correspondence only.',
@@ -32,7 +33,8 @@ CLAIMED['C03'] = dict(
          'compatible with the element type, call arguments inside the parameter types of an arity-matching overload), hence build_WT, '
          'parse_predicate_WT (root exactly BOOL, same-printed references share a type); table obligations (results are single base types, '
          'overloads unambiguous) are re-proved by decide on the tables regenerated from /repo. The executable decider wtB is proved equivalent to '
-         'WT and judges every AST the implementation returns from parsers and from rewriting functions (compositions of depth <= 2).',
+         'WT and judges every AST the implementation returns from parsers and from rewriting functions (compositions of depth <= 2).'
+         ' Property level (Props/C03e): parseProperty_WT, parseSpecification_WT, canonical_WT - every property the parser returns and every output of canonical_form has well-typed event predicates.',
     design_ref='DESIGN.md §6 C03',
     note='Trusted: Lean kernel and standard axioms; extract_tables.py; dumper; the attrs construction protocol is modelled by hand and tied by '
          'typed-AST correspondence (parser route and API route). Preservation theorems for the rewriting functions are proved for the functions '
@@ -125,7 +127,8 @@ CLAIMED['C02'] = dict(
          'binding position); mkProperty/butProp run it on every route, so no Property value bypasses it; mkDisj accepts iff channels are '
          'distinct; mkQuant enforces the three hygiene conditions; failures are sanity errors. The constructor guarantees the iff assumes '
          '(quantifier invariant, non-empty aliases) are proved for everything the parser builds (build_quantOK, buildSimple_EvOK). The grid of '
-         '77k shapes over {X,Y} is run exhaustively in the thorough tier.',
+         '77k shapes over {X,Y} is run exhaustively in the thorough tier.'
+         ' The capture defect (an event alias equal to a quantified variable of its predicate was rejected) was found, fixed in /repo (0392d7a) and is generated by the grid and as written texts; the model replacement is capture-avoiding (substV).',
     design_ref='DESIGN.md §6 C02',
     note='Trusted: Lean kernel and standard axioms; dumper/codec; correspondence sampling. Reading of (ii): the same alias on two alternatives '
          'of one disjunction is not a second binding along the chain (stated in Props/C02.lean).',
@@ -160,7 +163,8 @@ CLAIMED['C09'] = dict(
          'splitAnd_indivisible — no returned expression is a conjunction, negated disjunction/implication, double negation, negated '
          'existential or universal quantifier over a conjunction. Semantics: the reference evaluator Hpl/Spec/Eval.lean (errors collapsed to '
          'undefined). Tied to the code by list-equality correspondence on an enumerated grammar and random formulas; every implementation '
-         'output is also judged by the Lean evaluator on a complete valuation grid.',
+         'output is also judged by the Lean evaluator on a complete valuation grid.'
+         ' ValueError only at a literally false conjunct (Props/C09b splitAnd_value_only_false, presplit_err); the model never exhausts its fuel (Props/C09c splitAnd_fuel_ok).',
     design_ref='DESIGN.md §6 C09',
     note='Trusted: the reference semantics (the repository has no evaluator); equivalence is refinement (defined conjuncts => defined input), '
          'because the hoisted conjunct len(d)=0 or p is evaluated on an empty domain where the original is not. Fuel sufficiency of the model '
@@ -170,7 +174,8 @@ CLAIMED['C10'] = dict(
     text='Lean 4 theorems about the model of refactor_reference: refactor_equiv (wherever both returned parts have a truth value the input has '
          'the value f1 and f2, for every valuation including empty quantifier domains), refactor_noRef (the first part never mentions the alias), '
          'refactor_unchanged (input, True) when the alias is absent. Tied to the code by correspondence on an enumerated alias grammar and random '
-         'formulas; outputs are judged by the Lean evaluator, and the no-escaping-variables clause by the Lean freeVars spec on the outputs.',
+         'formulas; outputs are judged by the Lean evaluator, and the no-escaping-variables clause by the Lean freeVars spec on the outputs.'
+         ' The model never exhausts its fuel (Props/C10b refactorExpr_fuel_ok).',
     design_ref='DESIGN.md §6 C10',
     note='Trusted: reference semantics as C09. The clause "no bound variable occurs free in f1 or f2" is decided on implementation outputs '
          'with the Lean freeVars function (not yet a theorem about the model).',
@@ -181,7 +186,8 @@ CLAIMED['C13'] = dict(
          'binders preserves the value — instantiated as replaceThisWithVar_sem and replaceVarWithThis_sem for aliases not captured by a '
          'quantifier under valuations binding the variable to the current message, substE_removes / event_alias_normalised (the stored predicate '
          'of `t as A {f}` never mentions A, A is not an external reference) and event_alias_sem. Tied to the code by correspondence of all five '
-         'operations; laws also judged with the Lean evaluator; the inverse law is checked on implementation outputs.',
+         'operations; laws also judged with the Lean evaluator; the inverse law is checked on implementation outputs.'
+         ' The two replacements undo each other (Props/C13b-e): subst_fwd, subst_back, build_rebuildable, replace_roundtrip_parsed (both succeed and compose to the identity on every tree built from a printable syntax tree, for an alias not otherwise used); event_alias_noop.',
     design_ref='DESIGN.md §6 C13',
     note='Trusted: reference semantics as C09. subst_inverse (the two replacements undo each other for a fresh alias) is decided by '
          'correspondence/structural comparison on implementation outputs, not proved.',
@@ -227,7 +233,8 @@ CLAIMED['C01'] = dict(
          'is judged against the tree each text was rendered from (through the model build, independent of the model parser) and compared '
          'with the model parser on the text itself, over random layouts, minimal/full/redundant parentheses, keyword-like names, '
          'non-canonical numbers and token-level mutations; 0 disagreements with Lark on ~2k texts per run including the LALR-merged-lookahead '
-         'corner (`xs[0]!= 3`). Also proved: keyword recognition is exact-word and boundary-sensitive (isKw_exact).',
+         'corner (`xs[0]!= 3`). Also proved: keyword recognition is exact-word and boundary-sensitive (isKw_exact).'
+         ' Layout independence at token level (Props/C01d, C18b): parse_key_invariant - every parser function returns the same result on token sequences that agree on kind, text and word adjacency, at every entry point; scanner lemmas (longest-match words, maximal-munch symbols, local number and string scanning, Props/C06d, C06g).',
     design_ref='DESIGN.md §0.1, §6 C01',
     note='PARTIAL: completeness (grammar tree => parser result) is proved at token level; soundness / unambiguity (parser result => grammar '
          'tree), the scanner and the agreement of the Lean grammar relation with the .lark file are tied by correspondence. Lark itself is '
@@ -258,7 +265,8 @@ CLAIMED['C07'] = dict(
          'predFromExpr_err_documented (the isinstance assertion is unreachable on built trees), parseExpression_documented / '
          'parsePredicate_documented (the model entry points only fail with documented classes; they are total by construction, with fuel '
          'linear in the token count). Lark, recursion limits and hidden parser state are outside the model: arbitrary Unicode, token soups, '
-         'edited texts and per-object call histories are run against the implementation and compared with the model accept/reject.',
+         'edited texts and per-object call histories are run against the implementation and compared with the model accept/reject.'
+         ' Every implementation call runs under a 10 s wall-clock budget: a call that does not return is reported as a violation (does-not-terminate) instead of hanging the check.',
     design_ref='DESIGN.md §6 C07',
     note='PARTIAL by nature: termination and statelessness of the Lark engine are observed, not proved; the property-level entry points\' '
          'no-internal theorem (needs well-formedness of the parser\'s raw properties) is not yet proved.',
@@ -267,7 +275,8 @@ CLAIMED['C18'] = dict(
     text='Lean 4 model of hpl_file / metadata / hpl_property (buildSpec = mapM buildProperty, duplicate annotation key = syntax error, empty '
          'file rejected: theorems empty_file_rejected, duplicate_key_rejected, buildSpec_members) tied by correspondence on files of 1..6 '
          'members with every annotation subset/order and random separators; the statement itself (file = sequence of its members parsed alone, '
-         'same error class as the offending member) is decided on the implementation.',
+         'same error class as the offending member) is decided on the implementation.'
+         ' Text level (Props/C06k, C18b): parse_printed_file - the text of k printed properties, one per line, is scanned and parsed back to exactly those k property trees; parseFileToks_sim.',
     design_ref='DESIGN.md §6 C18',
     note='PARTIAL: the segmentation lemma (a rendered property is followed only by tokens that cannot extend it) is not yet a theorem.',
     technique='Lean 4 model + theorems on file assembly (partial) + member-wise correspondence')
